@@ -425,7 +425,13 @@ func (k *Kernel) serveConn(cn *Conn) {
 				w.aborted = true
 			}
 		}()
-		if d := k.Plan.ServerDeadlineMs; d > 0 {
+		if d := k.Plan.ServerDeadlineMs; d < 0 {
+			// the request context is already done when the routes see the request (a timeout
+			// handler that fired, a caller that went away): the routes owe the same decisions
+			ctx, cancel := context.WithCancel(req.Context())
+			cancel()
+			req = req.WithContext(ctx)
+		} else if d > 0 {
 			ctx, cancel := context.WithTimeout(req.Context(), time.Duration(d)*time.Millisecond)
 			defer cancel()
 			req = req.WithContext(ctx)
